@@ -141,7 +141,7 @@ func (e *Env) tr(ex ast.Expr) TVal {
 				et = types.Typ[types.Uint8]
 			}
 			comp := e.x.so.elemComp(et)
-			return TVal{T: "(select (select " + e.st.get(comp) + " (s_base " + x.T + ")) (+ (s_off " + x.T + ") " + i.T + "))", Sort: e.x.so.sortOf(et), Ty: et}
+			return TVal{T: "(select (select " + e.st.get(comp) + " (s_base " + x.T + ")) (idx (s_off " + x.T + ") " + i.T + "))", Sort: e.x.so.sortOf(et), Ty: et}
 		}
 		if strings.HasPrefix(x.Sort, "(Array") {
 			// ghost array or array value
@@ -539,7 +539,7 @@ func (e *Env) trCall(n *ast.CallExpr) TVal {
 			return TVal{T: "0", Sort: "Int"}
 		}
 		a, i := arg(0), arg(1)
-		return TVal{T: "(select (select " + e.st.get("BM") + " (s_base " + a.T + ")) (+ (s_off " + a.T + ") " + i.T + "))", Sort: "Int"}
+		return TVal{T: "(select (select " + e.st.get("BM") + " (s_base " + a.T + ")) (idx (s_off " + a.T + ") " + i.T + "))", Sort: "Int"}
 	case "row":
 		// the backing row of a byte slice: (select BM base)
 		if !need(1) {
@@ -612,9 +612,10 @@ func (e *Env) trCall(n *ast.CallExpr) TVal {
 		row := "(select " + e.st.get(comp) + " (s_base " + sv.T + "))"
 		sub := e.clone()
 		sub.errs = e.errs
-		sub.vars[id.Name] = TVal{T: "(select " + row + " j!)", Sort: e.x.so.sortOf(sl.Elem()), Ty: sl.Elem()}
+		el := "(select " + row + " (idx (s_off " + sv.T + ") j!))"
+		sub.vars[id.Name] = TVal{T: el, Sort: e.x.so.sortOf(sl.Elem()), Ty: sl.Elem()}
 		body := sub.tr(n.Args[2])
-		return TVal{T: "(forall ((j! Int)) (! (=> (and (<= (s_off " + sv.T + ") j!) (< j! (+ (s_off " + sv.T + ") (s_len " + sv.T + ")))) " + body.T + ") :pattern ((select " + row + " j!))))", Sort: "Bool"}
+		return TVal{T: "(forall ((j! Int)) (! (=> (and (<= 0 j!) (< j! (s_len " + sv.T + "))) " + body.T + ") :pattern (" + el + ")))", Sort: "Bool"}
 	case "int", "int64", "int32", "int8", "uint64", "uint32", "uint8", "uint", "byte", "int16", "uint16":
 		if !need(1) {
 			return TVal{T: "0", Sort: "Int"}
